@@ -202,3 +202,7 @@ package keepclient
 //@ func BlockCache.ReadAt property C03
 //@   requires off >= 0 && len(locator) >= 32
 //@   ensures result1 == nil ==> 0 <= result0 && result0 <= len(p)
+
+// ---------------------------------------------------- C06: index completeness
+//@ func KeepClient.GetIndex property C06 safety -bounds
+//@   ensures result1 == nil ==> string(respBody) == "\n" || strings.HasSuffix(string(respBody), "\n\n")
